@@ -12,6 +12,8 @@ MCZones == {[init |-> -5 * H, trans |-> <<[at |-> 7 * H, off |-> -4 * H], [at |-
 Grid(lo, hi, step) == {lo + k * step : k \in 0..((hi - lo) \div step)}
 MCInstants == Grid(-2 * 86400, 3 * 86400, 1800 * 3) \cup Grid(20 * 86400 - 12 * H, 20 * 86400 + 18 * H, 3 * H) \cup {30 * 86400, 31 * 86400 + 5 * H, 59 * 86400 + 7 * H, 60 * 86400}
 GInstants == Grid(-86400 - 6 * H, 2 * 86400 + 12 * H, 6 * H) \cup Grid(20 * 86400 - 12 * H, 20 * 86400 + 18 * H, 6 * H) \cup {7 * H, 7 * H - 1800, 10 * H, 30 * 86400, 59 * 86400 + 7 * H}
+             \* one day before / after a skipped and a repeated wall-clock time of the DST zone (02:30 and 01:30): +-P1D lands inside the gap / the fold
+             \cup {7 * H + 1800 - 86400, 8 * H + 1800 + 86400 - 3600, 19 * 86400 + 5 * H + 1800, 21 * 86400 + 6 * H + 1800}
 Dz(y, mo, w, d, h, mi) == Dur10(FromInt(y), FromInt(mo), FromInt(w), FromInt(d), FromInt(h), FromInt(mi), Zero, Zero, Zero, Zero)
 MCDurs == {Dz(0, 0, 0, 1, 0, 0), Dz(0, 0, 0, -1, 0, 0), Dz(0, 1, 0, 0, 0, 0), Dz(0, 0, 0, 0, 24, 0), Dz(0, 0, 0, 1, 1, 30), Dz(0, 0, 1, 0, 0, 0), Dz(0, -1, 0, -1, -2, 0), Dz(0, 0, 0, 0, 0, 90), Dz(0, 0, 0, 2, 0, 0)}
 MCLargests == {"year", "month", "week", "day", "hour", "second"}
